@@ -241,8 +241,10 @@ class ZeroDurationTask(Task):
 
     def __init__(self, **data) -> None:
         super().__init__(**data)
-        # add an assertion: end = start because the duration is zero
-        self.append_z3_assertion(self._start == self._end)
+        # end = start because the duration is zero; like the other task classes,
+        # go through set_assertions so that the task cannot start before time 0
+        # and so that an optional task gets its 'scheduled' variable
+        self.set_assertions([self._start == self._end, self._start >= 0])
 
 
 class FixedDurationTask(Task):
